@@ -8,7 +8,9 @@ def run():
     return macfam.run(PID, [f"hist={12 if t else 3}", f"steps={400 if t else 120}", "profile=adr"],
         'uplink header bits or ADR back-off deviate from the history',
         "seeded random histories with few downlinks (so the ADR counter reaches the 64/96/128.. thresholds), ADR toggles, data-rate overrides, confirmed/unconfirmed downlinks; every uplink's MType/DevAddr/ADR/ADRACKReq/ACK bits are decoded from the transmitted bytes and compared with Mac!UplinkFields; the data rate after every call with Mac!AfterRx2Complete",
-        macfam.COMMON_ASSUMPTIONS, mc=[("MCAdr.tla", "MCAdr.cfg", {"workers": 8})])
+        macfam.COMMON_ASSUMPTIONS, mc=[("MCAdr.tla", "MCAdr.cfg", {"workers": 8}),
+            # the same exploration with the REAL constants (ADR_ACK_LIMIT 64, ADR_ACK_DELAY 32; frame counters hidden by a VIEW)
+            ("MCAdr.tla", "MCAdrReal.cfg", {"workers": 6}), ("MCAdr.tla", "MCAdrRealIN.cfg", {"workers": 6})])
 
 
 def replay(path):
